@@ -33,6 +33,11 @@ REAL_POOL = [  # (country, option overrides): three-round runs of different char
     ("NZL", {"scenario": "seaweed"}), ("USA", {"shutoff": "continued_after_10_percent_fed"}),
     ("ARG", {"cull": "dont_eat_culled"}), ("IDN", {"meat_strategy": "feed_only_ruminants"}),
     ("USA", {}, 0), ("IND", {"shutoff": "continued"}, 0),   # threshold overridden to the legal boundary 0
+    # no storage between years (culled meat must be eaten in the month of slaughter): no shipped preset uses it
+    ("ARG", {"shutoff": "continued", "ratio_stocks_untouched": "no_stored_between_years"}),
+    ("ARG", {"shutoff": "continued", "ratio_stocks_untouched": "baseline_no_stored_between_years"}),
+    ("USA", {"ratio_stocks_untouched": "no_stored_between_years"}),
+    ("MNG", {"shutoff": "continued", "ratio_stocks_untouched": "no_stored_between_years"}),
 ]
 
 
@@ -228,9 +233,35 @@ def gen_near_equal(rng, dyadic):
     return {"kind": "redist", "r1": r1, "r2": r2, "mode": "near_equal:" + variant, "dyadic": dyadic}
 
 
+def gen_near_tie_total(rng, dyadic):
+    """round-2 total below OR above the round-1 total by a relative 1e-6 .. 1e-3 (timing differs freely): just below
+    -> the code must abandon round 2 (None), just above -> it must re-time and keep the round-2 total"""
+    n = max(2, gen_len(rng))
+    if dyadic:
+        r1 = [float(rng.randint(256 * 64, 4096 * 64)) / 64.0 if rng.random() < 0.9 else 0.0 for _ in range(n)]
+        r1[0] = max(r1[0], 256.0)
+    else:
+        r1 = [rng.uniform(5.0, 5000.0) if rng.random() < 0.9 else 0.0 for _ in range(n)]
+        r1[0] = max(r1[0], 5.0)
+    r2 = list(r1)
+    rng.shuffle(r2)
+    s1 = sum(r1)
+    rel = 10 ** rng.uniform(-6, -3)
+    side = rng.choice(["below", "below", "above"])
+    d = rel * s1
+    if dyadic:
+        d = max(1, int(d * 64)) / 64.0
+    k = max(range(n), key=lambda q: r2[q])
+    r2[k] = r2[k] - d if side == "below" else r2[k] + d
+    return {"kind": "redist", "r1": r1, "r2": r2, "mode": "near_tie_total:" + side, "dyadic": dyadic}
+
+
 def gen_redist(rng, dyadic):
-    if rng.random() < 0.3:
+    u = rng.random()
+    if u < 0.25:
         return gen_near_equal(rng, dyadic)
+    if u < 0.45:
+        return gen_near_tie_total(rng, dyadic)
     n = gen_len(rng)
     mode = rng.choice(["retimed_more", "retimed_more", "retimed_equal", "less", "identical", "random", "late_peak"])
 
@@ -483,6 +514,8 @@ def branch_tags(case, r):
             t.append("redist:shape_error")
         elif r["out"] is None:
             t.append("redist:None(sum1>sum2)")
+            if len(case["r1"]) == len(case["r2"]) and 0 < sum(case["r1"]) - sum(case["r2"]) < 1e-4 * sum(case["r1"]):
+                t.append("redist:None,shortfall<0.01%")
         else:
             t.append("redist:retimed" if any(x < y for x, y in zip(case["r2"], case["r1"])) else "redist:nothing_to_move")
             if (len(case["r1"]) == len(case["r2"]) and any(x < y for x, y in zip(case["r2"], case["r1"]))
@@ -609,7 +642,8 @@ def real_runs(ctx):
     if ctx.quick:
         # USA (plain), NZL (the special-cased constant), MNG twice (shipped nuclear-winter options; ruminants only +
         # short shut-off): the two MNG runs are ones where the re-timing moves meat
-        fixed = [pool[0], pool[5], pool[8], pool[9]]
+        nostore = [p for p in pool if p[0] == "ARG" and "stored_between_years" in p[1].get("ratio_stocks_untouched", "")]
+        fixed = [pool[0], pool[5], pool[8], pool[9]] + nostore   # + ARG without storage between years (both spellings)
         rest = [p for p in pool if p not in fixed and len(p) == 2]
         ctx.rng.shuffle(rest)
         pool = fixed + rest[:1]
